@@ -55,6 +55,8 @@ func (l *Lexer) nextInsideToken() token.Token {
 	var tok token.Token
 
 	l.skipWhitespace()
+	// a token belongs to the line it starts on (the look-ahead below may consume a newline)
+	line := l.curLine
 
 	switch l.ch {
 	case '=':
@@ -71,14 +73,14 @@ func (l *Lexer) nextInsideToken() token.Token {
 			tokSplit := strings.Split(tok.Literal, ".")
 			switch {
 			case len(tokSplit) > 2:
-				return l.newIllegalTokenLiteral(token.ILLEGAL, tok.Literal)
+				return token.Token{Type: token.ILLEGAL, Literal: tok.Literal, LineNumber: line}
 			case len(tokSplit) == 2:
 				tok.Type = "FLOAT"
 			default:
 				tok.Type = "INT"
 			}
 
-			tok.LineNumber = l.curLine
+			tok.LineNumber = line
 			return tok
 		}
 		tok = l.newToken(token.DOT)
@@ -195,20 +197,20 @@ func (l *Lexer) nextInsideToken() token.Token {
 		if isLetter(l.ch) {
 			tok.Literal = l.readIdentifier()
 			tok.Type = token.LookupIdent(tok.Literal)
-			tok.LineNumber = l.curLine
+			tok.LineNumber = line
 			return tok
 		} else if isDigit(l.ch) {
 			tok.Literal = l.readNumber()
 			tokSplit := strings.Split(tok.Literal, ".")
 			switch {
 			case len(tokSplit) > 2:
-				return l.newIllegalTokenLiteral(token.ILLEGAL, tok.Literal)
+				return token.Token{Type: token.ILLEGAL, Literal: tok.Literal, LineNumber: line}
 			case len(tokSplit) == 2:
 				tok.Type = "FLOAT"
 			default:
 				tok.Type = "INT"
 			}
-			tok.LineNumber = l.curLine
+			tok.LineNumber = line
 			return tok
 		} else {
 			tok = l.newToken(token.ILLEGAL)
@@ -216,7 +218,7 @@ func (l *Lexer) nextInsideToken() token.Token {
 	}
 
 	l.readChar()
-	tok.LineNumber = l.curLine
+	tok.LineNumber = line
 	return tok
 }
 
